@@ -140,6 +140,15 @@ fn render(n: &Node, now_ns: i128, out: &mut String) {
                     if l.starts_with("id:") && prefix.ends_with("StunAgent") {
                         continue; // tracing counter
                     }
+                    // fields that differ between two objects built the same way (learnt, see learn_instance_fields):
+                    // per-instance serial numbers whatever they are called
+                    if let Some(fields) = INSTANCE_FIELDS.get() {
+                        if let Some(k) = l.split(':').next() {
+                            if fields.iter().any(|(g, f)| f == k && prefix.trim_end().ends_with(g.as_str())) {
+                                continue;
+                            }
+                        }
+                    }
                 }
                 let mut s = String::new();
                 render(c, now_ns, &mut s);
@@ -166,6 +175,33 @@ fn render(n: &Node, now_ns: i128, out: &mut String) {
             }
         }
     }
+}
+
+static INSTANCE_FIELDS: std::sync::OnceLock<Vec<(String, String)>> = std::sync::OnceLock::new();
+
+/// Learn which fields of the outermost group are per-instance serial numbers: `d1` and `d2` are the Debug
+/// texts of two objects built the same way, one after the other.  A field of the outermost group whose
+/// text differs between them is not state (the tracing counter of `StunAgent`, under whatever name) and
+/// is left out of the canonical snapshot.  Called once, before the first snapshot is taken.
+pub fn learn_instance_fields(d1: &str, d2: &str) {
+    let _ = INSTANCE_FIELDS.get_or_init(|| {
+        let mut out = Vec::new();
+        let a = Parser { s: d1.as_bytes(), i: 0 }.items(None);
+        let b = Parser { s: d2.as_bytes(), i: 0 }.items(None);
+        if let (Some(Node::Group(_, pa, ca)), Some(Node::Group(_, pb, cb))) = (a.first(), b.first()) {
+            if pa == pb && ca.len() == cb.len() {
+                for (x, y) in ca.iter().zip(cb.iter()) {
+                    if let (Node::Leaf(lx), Node::Leaf(ly)) = (x, y) {
+                        let (kx, ky) = (lx.split(':').next().unwrap_or(""), ly.split(':').next().unwrap_or(""));
+                        if lx != ly && kx == ky && lx.contains(':') {
+                            out.push((pa.trim().to_string(), kx.to_string()));
+                        }
+                    }
+                }
+            }
+        }
+        out
+    });
 }
 
 /// Canonical text of `debug` with instants relative to `now`.
